@@ -122,6 +122,7 @@ def install_probe():
             bound = self.adj.outbuf_high_watermark + size + 25 * st["interims"]
             if pending > bound and st["viol"] is None:
                 st["viol"] = (pending, bound, size)
+            st.setdefault("channels", {})[id(self)] = self
         return n
 
     def send_continue(self):
@@ -153,6 +154,12 @@ def judge(scn, o, acc):
     if st["viol"]:
         p, b, s = st["viol"]
         out.append(("pending-exceeds-bound", f"pending output {p} > watermark {mark} + write {s} (+interims) = {b}"))
+    for chn in st.get("channels", {}).values():
+        # handle_close() zeroes the pending count under the output lock; anything counted on a closed
+        # channel afterwards was accepted after the close (the request was not aborted)
+        if not chn.connected and chn.socket is None and chn.total_outbufs_len > 0:
+            out.append(("write-accepted-after-disconnect",
+                        f"{chn.total_outbufs_len} bytes were accepted by write_soon after the channel had been closed"))
     if not w.io_alive():
         out.append(("io-thread-died", "the I/O loop thread ended: " + getattr(w, "loop_error", "?")))
     for t in w.sched.threads:
